@@ -378,6 +378,35 @@ def patch_shape_tokens(pdesc, isa):
     return toks
 
 
+def module_shape_ok(model):
+    from .vocab import NO_FALLTHROUGH
+
+    for sname in model.section_order:
+        seq = [t for u in model.sections[sname] for t in u.toks if t.is_bytes() and t.origin != "pad"]
+        for a, b in zip(seq, seq[1:] + [None]):
+            if a.kind == "insn" and a.ikind not in NO_FALLTHROUGH and a.ikind not in ("ret", "pad"):
+                if b is None or b.kind != "insn":
+                    return False
+    return True
+
+
+def ops_allowed(model, sd):
+    """The combinations _avoid_ambiguous steers away from must also be
+    absent from replayed / shrunk scenarios."""
+    import copy
+
+    ops = copy.deepcopy(sd["ops"])
+    before = json_key(ops)
+    _avoid_ambiguous(model, ops)
+    return json_key(ops) == before
+
+
+def json_key(x):
+    import json
+
+    return json.dumps(x, sort_keys=True)
+
+
 def shape_ok(model, sd, params):
     from . import driver
     from .vocab import NO_FALLTHROUGH
@@ -388,7 +417,7 @@ def shape_ok(model, sd, params):
     def rule1(mm):
         """nothing falls off the end of code"""
         for sname in mm.section_order:
-            seq = [t for u in mm.sections[sname] for t in u.toks if t.is_bytes()]
+            seq = [t for u in mm.sections[sname] for t in u.toks if t.is_bytes() and t.origin != "pad"]
             for a, b in zip(seq, seq[1:] + [None]):
                 if a.kind == "insn" and a.ikind not in NO_FALLTHROUGH and a.ikind not in ("ret", "pad"):
                     if b is None or b.kind != "insn":
